@@ -95,7 +95,7 @@ func (d *driver) run() int {
 		return 2
 	}
 	_ = os.MkdirAll(filepath.Join(verifDir, ".build"), 0755)
-	_ = os.MkdirAll(filepath.Join(verifDir, "evidence"), 0755)
+	_ = os.MkdirAll(evidenceDir(), 0755)
 	needRace, needPlain := false, false
 	for _, pe := range spec.Plan {
 		if pe.Race {
@@ -208,7 +208,7 @@ func (d *driver) run() int {
 	}
 	wall := time.Since(start).Seconds()
 	evd := agg.evidence(d.tier, d.seed, wall)
-	path := filepath.Join(verifDir, "evidence", d.prop+".json")
+	path := filepath.Join(evidenceDir(), d.prop+".json")
 	if err := os.WriteFile(path, mustJSON(evd), 0644); err != nil {
 		fmt.Fprintf(os.Stderr, "check: cannot write evidence: %v\n", err)
 		return 2
@@ -297,7 +297,7 @@ func (d *driver) execOne(s runSpec) *runResult {
 	if res.exit == 124 || res.exit == 137 {
 		res.timedOut = true
 	}
-	_ = os.WriteFile(filepath.Join(out, "cmdline.txt"), []byte(bin+" "+strings.Join(args[5:], " ")+"\n"), 0644)
+	_ = os.WriteFile(filepath.Join(out, "cmdline.txt"), []byte(strings.Join(args[5:], " ")+"\n"), 0644)
 	d.analyze(res)
 	return res
 }
